@@ -202,6 +202,8 @@ func (srw *ServiceRouterWatcher) UpdateDesc(desc *bridgedesc.Target) {
 		return
 	}
 
+	verifYield("service:update:after-closed-check")
+
 	srw.sr.updateRoutes(desc)
 }
 
@@ -217,6 +219,8 @@ func (srw *ServiceRouterWatcher) Close() {
 	if !srw.closed.CompareAndSwap(false, true) {
 		panic("grpcbridge: ServiceRouterWatcher.Close() called multiple times")
 	}
+
+	verifYield("service:close:after-flip")
 
 	srw.sr.removeTarget(srw.target)
 	srw.sr.watcherSet.Remove(srw.target)
@@ -262,6 +266,8 @@ func (sr *ServiceRouter) updateRoutes(desc *bridgedesc.Target) {
 		presentSvcRoutes[svc.Name] = struct{}{}
 		newSvcRoutes = append(newSvcRoutes, svc.Name)
 	}
+
+	verifYield("service:update:between-phases")
 
 	// Remove outdated routes
 	var released []protoreflect.FullName
